@@ -24,3 +24,28 @@ Print Assumptions C14_no_double_free.
 Theorem C14_no_leak : forall (V : Type) (H : nat) ops, ok_run V H (init V) ops -> (forall h, hs V (run V (init V) ops) h = None) -> forall c, val V (run V (init V) ops) c = None.
 Proof. exact no_leak. Qed.
 Print Assumptions C14_no_leak.
+
+(* THE HANDLE LAYER OF THE SOURCE.  The special members of poly_p (include/nfl/poly_p.hpp) are read from clang's AST on every run by
+   tools/cxxpolyp2coq.py -- member initialisers of the shared_ptr _p (copy, std::move, make_pointer(...)), `if (this != &o)`, `_p = o._p`,
+   `_p = std::move(o._p)`, `if (!_p.unique()) _p = make_pointer( *_p )`, `detach(); return *_p;`, make_pointer = std::allocate_shared<poly_type>
+   with the aligned allocator and all arguments forwarded, no user-written destructor, no data member but _p -- and emitted over the shared_ptr
+   operations of ShSem.v (standard-mandated behaviour: trusted).  They ARE the operations of the machine the theorems above are about:
+   construction = Create, copy construction / assignment = Copy, move construction / assignment = Move, destruction = Destroy (equal states),
+   and `poly_obj()` followed by a mutation through the returned reference = Write (every component of the state equal, hence the same
+   observable values) -- so the refinement to plain values, no-double-free and no-leak hold of histories of the translated members. *)
+From NTT Require ShSem GenPolyPEq.
+From NTT.gen Require GenPolyP.
+Theorem C14_source_handles : forall (V : Type) (H : nat) (s : st V),
+  (forall h v, GenPolyP.gen_pp_make s h v = step V s (Create V h v)) /\
+  (forall h g, GenPolyP.gen_pp_assign_copy s h g = step V s (Copy V h g)) /\
+  (forall h g, GenPolyP.gen_pp_assign_move s h g = step V s (Move V h g)) /\
+  (forall h g c, hs V s h = None -> h <> g -> hs V s g = Some c -> GenPolyP.gen_pp_ctor_copy s h g = step V s (Copy V h g) /\ GenPolyP.gen_pp_ctor_copy_nc s h g = step V s (Copy V h g)) /\
+  (forall h g, hs V s h = None -> h <> g -> GenPolyP.gen_pp_ctor_move s h g = step V s (Move V h g)) /\
+  (forall h, GenPolyP.gen_pp_destroy s h = step V s (Destroy V h)) /\
+  (forall h f, Inv V H s -> GenPolyPEq.eqst V (GenPolyP.gen_pp_write s h f) (step V s (Write V h f)) /\ forall g, abs V (GenPolyP.gen_pp_write s h f) g = abs V (step V s (Write V h f)) g).
+Proof.
+  exact (fun V H s => conj (GenPolyPEq.make_is_create V s) (conj (GenPolyPEq.assign_copy_is_copy V s) (conj (GenPolyPEq.assign_move_is_move V s)
+    (conj (GenPolyPEq.ctor_copy_is_copy V s) (conj (GenPolyPEq.ctor_move_is_move V s) (conj (GenPolyPEq.destroy_is_destroy V s)
+    (fun h f I => conj (GenPolyPEq.write_is_write V H s h f I) (GenPolyPEq.eqst_abs V _ _ (GenPolyPEq.write_is_write V H s h f I))))))))).
+Qed.
+Print Assumptions C14_source_handles.
